@@ -81,7 +81,11 @@ func (rc *replayCtx) fetch(dir string, round int, bound bool) bool {
 	if len(rc.want) == 0 {
 		return true
 	}
-	q := rc.prog.buildQuery(rc.o, false)
+	qo := rc.o
+	if rc.o.Projected {
+		qo = &Obligation{Name: rc.o.Name, Goal: rc.o.Goal, Hyps: rc.o.ProjHyps}
+	}
+	q := rc.prog.buildQuery(qo, false)
 	q = strings.Replace(q, "(set-logic ALL)", "(set-option :produce-models true)\n(set-logic ALL)", 1)
 	q = strings.TrimSuffix(strings.TrimSpace(q), "(check-sat)")
 	var b strings.Builder
@@ -479,7 +483,7 @@ func (p *Program) makeReplay(verif, repo, prop string, o *Obligation, tier strin
 	}
 	confirmed := false
 	switch {
-	case o.Status != "failed":
+	case o.Status != "failed" && !o.Projected:
 		rf.Outcome = "no-model"
 		rf.Detail = "the solver returned no model (quantified or undecided obligation)"
 	default:
